@@ -13,6 +13,7 @@ import (
 	"flag"
 	"fmt"
 	"io"
+	"math"
 	"math/rand"
 	"os"
 	"runtime"
@@ -328,6 +329,27 @@ var tasks = []task{
 				return fmt.Sprintf("inconsistent: error %d read %q when it was handed out and %q after other sources were processed", i, k.then, now)
 			}
 			fmt.Fprint(h, now, ";")
+		}
+		return hex.EncodeToString(h.Sum(nil))
+	}},
+	// parsing first, formatting afterwards: what ParseFloat / ParseInt return must not depend on which numbers were formatted
+	// earlier in the process (tables that are filled in on demand)
+	{"numeric-history", func(r *rand.Rand, c map[string][]string) string {
+		h := sha1.New()
+		for _, lit := range []string{"5e-24", "1.7e-29", "19e-34", "3e30", "7e22", "7e23", "1e-22", "1e-23", "123456789e-30", "0.000001e45", "9007199254740993e25"} {
+			f, n := strconv.ParseFloat([]byte(lit))
+			fmt.Fprint(h, math.Float64bits(f), n, ";")
+		}
+		for _, lit := range []string{"9223372036854775807", "-9223372036854775808", "18446744073709551615"} {
+			i, n := strconv.ParseInt([]byte(lit))
+			u, m := strconv.ParseUint([]byte(lit))
+			fmt.Fprint(h, i, n, u, m, ";")
+		}
+		for _, f := range []float64{1.5e-20, 2.5e-30, 1e-300, 5e-324, 1e22, 1e23, 1.5e300, float64(r.Intn(1000)) * 1e-25} {
+			for _, prec := range []int{-1, 0, 3, 17} {
+				b := strconv.AppendFloat(nil, f, prec)
+				fmt.Fprint(h, string(b), ";")
+			}
 		}
 		return hex.EncodeToString(h.Sum(nil))
 	}},
